@@ -42,6 +42,9 @@ pub enum WStep {
     Restart { node: u64 },
     /// kill -9 + start
     KillRestart { node: u64 },
+    /// one record of a data import (what TransferImportManager::apply_config does): draw a section of history ids from
+    /// the config actor, optionally let a publish slip in, then write the full value with its history through raft
+    Import { node: u64, t: u8, g: u8, d: u8, inter: bool },
 }
 
 pub fn cfg_key(t: u8, g: u8, d: u8) -> ConfigKey {
@@ -324,6 +327,39 @@ pub async fn do_step(n: &NodeH, st: &WStep, m: &mut WModel, timeout_ms: u64) -> 
                 None => OpOutcome::Timeout,
             }
         }
+        WStep::Import { t, g, d, inter, .. } => {
+            use rnacos::config::model::{ConfigHistoryItemDO, ConfigValueDO};
+            let (start, end) = match within(timeout_ms, n.app.config_addr.send(ConfigCmd::GetSequenceSection(100))).await {
+                Some(Ok(Ok(ConfigResult::SequenceSection { start, end }))) => (start, end),
+                _ => return OpOutcome::Err("no sequence section".to_string()),
+            };
+            if *inter {
+                // a client publish arrives while the import is under way
+                m.uniq += 1;
+                let c = format!("v{}:slip", m.uniq);
+                let req = SetConfigReq::new(cfg_key(*t, *g, (*d + 1) % 5), Arc::new(c));
+                let _ = within(timeout_ms, n.app.config_route.set_config(req)).await;
+            }
+            m.uniq += 1;
+            let content = format!("v{}:imported", m.uniq);
+            let vdo = ConfigValueDO {
+                content: Some(content.clone()),
+                histories: vec![ConfigHistoryItemDO { id: Some(start), content: Some(format!("v{}:imported-old", m.uniq)), last_time: Some(1_700_000_000_000), op_user: None }, ConfigHistoryItemDO { id: Some(start + 1), content: Some(content.clone()), last_time: Some(1_700_000_001_000), op_user: None }],
+                config_type: None,
+                desc: None,
+            };
+            let value = match vdo.to_bytes() {
+                Ok(v) => v,
+                Err(e) => return OpOutcome::Err(e.to_string()),
+            };
+            let req = ClientRequest::ConfigFullValue { key: cfg_key(*t, *g, *d).build_key().into_bytes(), value, last_seq_id: Some(end) };
+            sim::count("probe.import_record", 1);
+            match within(timeout_ms, n.app.raft_request_route.request(req)).await {
+                Some(Ok(_)) => OpOutcome::Ok,
+                Some(Err(e)) => OpOutcome::Err(e.to_string()),
+                None => OpOutcome::Timeout,
+            }
+        }
         WStep::PInstReg { svc, ip, weight, .. } => {
             let service = format!("psvc{}", svc % 2);
             let ipx = format!("10.9.0.{}", ip % 4);
@@ -375,7 +411,7 @@ pub async fn do_step(n: &NodeH, st: &WStep, m: &mut WModel, timeout_ms: u64) -> 
 
 pub fn step_node(st: &WStep) -> u64 {
     match st {
-        WStep::CfgSet { node, .. } | WStep::CfgDel { node, .. } | WStep::NsSet { node, .. } | WStep::NsDel { node, .. } | WStep::UserAdd { node, .. } | WStep::UserUpd { node, .. } | WStep::UserDel { node, .. } | WStep::SeqNext { node, .. } | WStep::SeqRange { node, .. } | WStep::PInstReg { node, .. } | WStep::PInstDel { node, .. } | WStep::Restart { node } | WStep::KillRestart { node } => *node,
+        WStep::CfgSet { node, .. } | WStep::CfgDel { node, .. } | WStep::NsSet { node, .. } | WStep::NsDel { node, .. } | WStep::UserAdd { node, .. } | WStep::UserUpd { node, .. } | WStep::UserDel { node, .. } | WStep::SeqNext { node, .. } | WStep::SeqRange { node, .. } | WStep::PInstReg { node, .. } | WStep::PInstDel { node, .. } | WStep::Restart { node } | WStep::KillRestart { node } | WStep::Import { node, .. } => *node,
         WStep::Advance { .. } => 0,
     }
 }
